@@ -3,6 +3,7 @@ from typing import Mapping, Optional, Sequence
 from ..interop.adapter import ExecutionDeliveredNoResults
 from ..interop.perf_parser import PerfParser
 from ..subprocess_with_timeout import run
+from ..configuration_error import ConfigurationError
 
 
 class Profiler(object):
@@ -18,7 +19,7 @@ class Profiler(object):
                 perf = PerfProfiler(k, v)
                 profilers.append(perf)
             else:
-                raise NotImplementedError("Not yet supported profiler type: " + k)
+                raise ConfigurationError("Not yet supported profiler type: " + str(k))
         return profilers
 
     def __init__(self, name, gauge_name):
